@@ -88,9 +88,6 @@ def go_build(name, tags=True):
     return rc, out
 
 
-GEN_FILES = ["SkiTable.v", "StateTable.v"]
-
-
 def sync_alt():
     if not ALT:
         return
@@ -309,6 +306,27 @@ def main_check(pid, tier, seed, replay=None):
         ex = cases[mismatches[0]]
         problems.append(("correspondence", "model and implementation disagree on %d of %d cases, first: %s"
                          % (len(mismatches), len(cases), json.dumps(ex.get("sample"))[:1500])))
+    # 4b. property-specific extra steps (e.g. real TLS sessions, race-detector stress)
+    extra_cov, extra_viol = {}, []
+    for stepf in spec.get("extra_steps", []):
+        try:
+            r = stepf(dict(pid=pid, tier=tier, seed=seed, wd=wd, repo=REPO, bin=BIN, coq=COQ, sh=sh, goenv=GOENV,
+                           go_build=go_build, lock=Lock)) or {}
+        except Exception as e:  # a crashing step is a broken check, reported as such
+            r = dict(problems=[("extra_step", "%s raised %r" % (getattr(stepf, "__name__", "step"), e))])
+        problems.extend(r.get("problems", []))
+        extra_viol.extend(r.get("violations", []))
+        extra_cov.update(r.get("coverage", {}))
+        notes.extend(r.get("notes", []))
+    # 4c. thorough tier: independent re-check of the compiled proofs with coqchk
+    if tier == "thorough" and pr["ok"] and not os.environ.get("VERIF_NO_COQCHK"):
+        mod = "ShipProps." + os.path.basename(spec.get("props", "props/%s.v" % pid))[:-2]
+        rc, out, dt = sh(["coqchk", "-silent", "-o"] + COQ_Q[:6] + [mod], cwd=COQ, timeout=3000)
+        open(os.path.join(wd, "coqchk.log"), "w").write(out)
+        notes.append("coqchk %s rc=%d %.0fs" % (mod, rc, dt))
+        extra_cov["coqchk"] = dict(rc=rc, seconds=round(dt), tail=out[-1500:])
+        if rc != 0:
+            problems.append(("coqchk", "coqchk rejected the compiled proofs: " + out[-1500:]))
     # 5. verdict
     findings = load_findings()
     known = {(f["property"], f["code"]): f for f in findings.get("findings", [])}
@@ -322,6 +340,13 @@ def main_check(pid, tier, seed, replay=None):
                 violations.append((i, name))
     for drv, rc, out, cmd in driver_failures:
         violations.append((-1, "driver_failed:%s rc=%d" % (drv["bin"], rc)))
+    extra_bodies = {}
+    for name, body in extra_viol:
+        if (pid, name) in known:
+            known_hits.setdefault(name, []).append(-2)
+        else:
+            violations.append((-2, name))
+            extra_bodies[name] = body
     # expected known findings that the deterministic witnesses must still exhibit are
     # printed whenever listed (the model-level refutation decides, not the sampling)
     for (p, name), f in known.items():
@@ -344,6 +369,8 @@ def main_check(pid, tier, seed, replay=None):
                 body.update(case_source=c.get("_src"), input_and_observed=c.get("sample"), coq_case=c["coq"],
                             codes=bad.get(i), kind=c.get("kind"),
                             n={str(c.get("_drv", 0)): (spec["drivers"][c.get("_drv", 0)]["n_thorough"] if tier == "thorough" else spec["drivers"][c.get("_drv", 0)]["n_quick"])} if "_drv" in c else {})
+            elif i == -2:
+                body.update(extra_bodies.get(name) or {})
             else:
                 drv, rc, out, cmd = driver_failures[0]
                 body.update(command=cmd, output_tail=out[-6000:])
@@ -382,7 +409,7 @@ def main_check(pid, tier, seed, replay=None):
             traces_validated_against_impl=len(cases) - len(mismatches),
             model_impl_mismatches=len(mismatches), monitor_failures=len(failing),
             known_finding_hits={k: len(v) for k, v in known_hits.items()},
-            input_distribution=dist, notes=notes,
+            input_distribution=dist, notes=notes, **extra_cov,
             broken=[dict(kind=k, detail=d[:2000]) for k, d in problems],
         ),
         assumptions=spec.get("assumptions", []),
